@@ -704,7 +704,10 @@ class World:
 
     def _do_disvg(self, idx, op, entry, fn, writer):
         fs = self.fs
-        objs, args = self._paths_arg(op)
+        try:
+            objs, args = self._paths_arg(op)
+        except (AssertionError, ValueError, TypeError, IndexError):
+            return "skipped:invalid-path-spec"      # e.g. an edited replay file with an arc from a point to itself
         tree = self._wsvg_tree(op, objs, writer)
         kw = {}
         if op.get("attrs") is not None:
@@ -853,7 +856,10 @@ class World:
             return "skipped"
         dm = self.docs[op["doc"]]
         spec = op["path"]
-        obj = build_path(spec)
+        try:
+            obj = build_path(spec)
+        except (AssertionError, ValueError, TypeError, IndexError):
+            return "skipped:invalid-path-spec"
         how = op.get("as", "path")
         arg = obj
         if how == "segment" and len(obj) == 1:
@@ -1367,7 +1373,10 @@ class Gen:
             # x and y of the first point of every path swapped (what a coarse mtime cannot tell apart)
             op = copy.deepcopy(self.last_wsvg)
             for p in op["paths"]:
-                p["segs"][0][1] = [p["segs"][0][1][1], p["segs"][0][1][0]]
+                sg = p["segs"][0]
+                sw = [sg[1][1], sg[1][0]]
+                if sw != sg[-1]:            # never a zero-length line / an arc from a point to itself
+                    sg[1] = sw
             op.pop("faults", None)
             op["__dt"] = 0.0
             return op
